@@ -31,6 +31,26 @@ func genC01(g *gen) {
 			}
 		}
 	}
+	// addressing through composed layouts: a vector view (2-D with one unit axis, or 1-D) cut from a lazily transposed
+	// tensor and transposed again - with default and explicit axes - then read over the whole box and written once;
+	// two-dimensional vectors through T ; Transpose ; T
+	for _, dt := range []string{"i32", "f64", "str"} {
+		for _, src := range []string{"C", "Fraw"} {
+			for _, sl := range []string{"1:2,n", "n,1:2", "n,0:1", "2:3,n", "1", "n,2"} {
+				for _, ax := range []string{"-", "1,0", "0,1"} {
+					if strings.Count(sl, ":") == 0 && ax != "-" {
+						continue // the view is one-dimensional
+					}
+					g.emit(fmt.Sprintf("new %s 3,4 %s", dt, src), "T $0 1,0", "slice $0 "+sl, "T $1 "+ax, "atbox $1 -1 1", "dump $1",
+						"setat $1 "+map[bool]string{true: "0,0", false: "1"}[strings.Count(sl, ":") > 0], "dump $0", "dump $1", "UT $1", "atbox $1 -1 1")
+				}
+			}
+			for _, sh := range []string{"1,4", "4,1"} {
+				g.emit(fmt.Sprintf("new %s %s %s", dt, sh, src), "T $0 -", "transpose $0", "T $0 -", "atbox $0 -1 1", "dump $0", "setat $0 0,0", "dump $0")
+				g.emit(fmt.Sprintf("new %s %s %s", dt, sh, src), "T $0 1,0", "T $0 0,1", "atbox $0 -1 1", "T $0 1,0", "atbox $0 -1 1", "dump $0")
+			}
+		}
+	}
 	classes := []string{"asis", "lazyT", "physT", "slice", "slice"}
 	for si, sh := range shs {
 		for oi, ord := range orders {
@@ -736,6 +756,28 @@ func genC13(g *gen) {
 			}
 		}
 		g.emit(steps...)
+	}
+	// every tensor a copying transposition returns reports size = product of its shape and strides that address only
+	// positions inside its own data (`wf` of the dump, and the whole box is read): SafeT, tensor.T, tensor.Transpose and
+	// safe axis rolling of views with gaps, of clones of such views and of masked tensors
+	for _, dt := range []string{"i32", "f64", "str"} {
+		for _, ord := range []string{"C", "Fraw"} {
+			for _, sl := range []string{"n,1:3", "0:3:2,n", "1:3,1:4", "0:3:2,0:4:2"} {
+				for _, cl := range []bool{false, true} {
+					for _, op := range []string{"safeT $%d -", "safeT $%d 1,0", "apiT $%d -", "apiT $%d 1,0", "apiTranspose $%d 1,0", "roll $%d 1 0 1"} {
+						steps := []string{fmt.Sprintf("new %s 3,4 %s", dt, ord), "slice $0 " + sl}
+						v := 1
+						if cl {
+							steps = append(steps, "clone $1")
+							v = 2
+						}
+						steps = append(steps, fmt.Sprintf(op, v), fmt.Sprintf("dump $%d", v+1), fmt.Sprintf("atbox $%d 0 0", v+1),
+							fmt.Sprintf("memset $%d", v+1), fmt.Sprintf("dump $%d", v), "dump $0")
+						g.emit(steps...)
+					}
+				}
+			}
+		}
 	}
 	// reshape to every factorisation of the size (and wrong sizes), after slicing/transposing/cloning
 	for k := 0; k < n; k++ {
